@@ -20,7 +20,7 @@ RULE = (
     "(float32 tolerance), the antimeridian set = faces with an edge spanning >= 180 degrees (relative to the projection's central "
     "longitude), 'exclude' drops exactly those, 'split' pieces lie in [-180, 180], do not span the antimeridian and cover the "
     "face (sampled containment both ways), data values sit on the polygons of their own faces (matched by geometry); objects "
-    "returned earlier are re-inspected after every later call. A quarter of the grids carry Cartesian node coordinates at radius 6371229. Non-trivial = the mesh has antimeridian faces or mixed sizes "
+    "returned earlier are re-inspected after every later call. A quarter of the grids carry Cartesian node coordinates at radius 6371229. A fifth of the cases are 'am-set' cases on unrestricted meshes (pole-enclosing faces, pole fans, polar rows, cubed spheres, every face listed from a drawn corner): Grid.antimeridian_face_indices and the number of elements 'exclude' leaves in frames, polygon and line collections (with and without a projection, in a drawn order) against the faces with an edge -- the closing one included -- spanning >= 180 degrees. Non-trivial = the mesh has antimeridian faces or mixed sizes "
     "and the history has >= 2 calls with different arguments; distinct by case hash."
 )
 ASSUMPTIONS = [
@@ -65,8 +65,21 @@ def _step(draw):
 
 
 @st.composite
+def _am_case(draw, tier):
+    """Which faces cross the antimeridian, and what 'exclude' drops, on meshes the planar picture cannot judge: faces
+    around a pole (whose only edge spanning >= 180 degrees may be the closing one), pole fans, polar rows, 7- and 8-gons
+    listed from any corner."""
+    big = tier != "quick"
+    mesh = draw(meshgen.any_mesh(max_pts=34 if big else 18, partial=True, polar=True))
+    obs = draw(st.lists(st.tuples(sampled_from(["property", "gdf", "poly", "line"]), sampled_from(["spatialpandas", "geopandas"]), _proj()), min_size=1, max_size=4))
+    return {"kind": "am-set", "mesh": mesh, "obs": [list(o) for o in obs], "rot": draw(st.integers(0, 7))}
+
+
+@st.composite
 def _case(draw, tier):
     big = tier != "quick"
+    if draw(st.integers(0, 4)) == 0:
+        return draw(_am_case(tier))
     fam = draw(sampled_from(["hull", "latlon"]))
     if fam == "hull":
         mesh = draw(meshgen.hull_mesh(40, 70 if big else 55, partial=True, planted=False))
@@ -161,6 +174,22 @@ def _am_faces(mesh, lon0):
 
 def classify(case):
     mesh = case["mesh"]
+    if case.get("kind") == "am-set":
+        am, _ = _am_faces(mesh, 0.0)
+        labs = ["kind:am-set", "am-set:family:" + mesh.get("family", "?")] + ["am-set:first:" + case["obs"][0][0]]
+        if am:
+            labs.append("am-set:has-antimeridian-faces")
+        nodes = mesh["nodes"]
+        closing_only = False
+        for fi in am:
+            f = mesh["faces"][fi]
+            f = f[case["rot"] % len(f):] + f[: case["rot"] % len(f)]
+            sp = [abs(_wrap(nodes[f[j]][0], 0.0) - _wrap(nodes[f[(j + 1) % len(f)]][0], 0.0)) >= 180.0 for j in range(len(f))]
+            if sp[-1] and not any(sp[:-1]):
+                closing_only = True
+        if closing_only:
+            labs.append("am-set:only-the-closing-edge-spans")
+        return sorted(set(labs)), bool(am)
     labs = [f"steps:{len(case['steps'])}", "family:" + mesh.get("family", "?")]
     am, _ = _am_faces(mesh, 0.0)
     if am:
@@ -254,12 +283,56 @@ def _geom_parts(geom):
     raise TypeError(type(geom))
 
 
+def _run_am_set(case, ctx):
+    """Unrestricted meshes: the set of antimeridian faces and the number of elements 'exclude' leaves, for a drawn
+    sequence of observations (the property itself, frames, polygon and line collections, with and without a projection)."""
+    mesh = dict(case["mesh"])
+    r = case["rot"]
+    mesh["faces"] = [f[r % len(f):] + f[: r % len(f)] for f in mesh["faces"]]
+    n_face = len(mesh["faces"])
+    fails = []
+    lon0s = {0.0} | {float(o[2][1]) for o in case["obs"] if o[2][0] != "none"}
+    if any(_am_faces(mesh, l0)[1] for l0 in lon0s):
+        ctx.label("no-verdict:edge-spans-180")
+        return fails
+    g = build.grid_from_mesh(mesh)
+    am0, _ = _am_faces(mesh, 0.0)
+    for k, (what, engine, pdesc) in enumerate(case["obs"]):
+        site = f"am-set:{what}:{pdesc[0]}:{'first' if k == 0 else 'later'}"
+        if what == "property":
+            ctx.ev("antimeridian_set")
+            got = sorted(int(i) for i in np.atleast_1d(g.antimeridian_face_indices))
+            if got != am0:
+                fails.append(Failure("antimeridian_set", "Grid.antimeridian_face_indices", "wrong-set", f"{site}: {got}, expected {am0} (faces {[mesh['faces'][i] for i in sorted(set(got) ^ set(am0))]} with node longitudes {[[mesh['nodes'][j][0] for j in mesh['faces'][i]] for i in sorted(set(got) ^ set(am0))]})"))
+                return fails
+            continue
+        proj, lon0 = _projection(pdesc)
+        am, _ = _am_faces(mesh, lon0)
+        ctx.ev("exclude_drops_exactly")
+        if what == "gdf":
+            n = len(g.to_geodataframe(periodic_elements="exclude", projection=proj, engine=engine))
+        elif what == "poly":
+            n = len(g.to_polycollection(periodic_elements="exclude", projection=proj).get_paths())
+        else:
+            n = len(g.to_linecollection(periodic_elements="exclude", projection=proj).get_segments())
+        if n != n_face - len(am):
+            fails.append(Failure("exclude_drops_exactly", site, "count", f"{n} elements left of {n_face} faces, {len(am)} of which have an edge spanning >= 180 degrees about longitude {lon0}: {am}"))
+            return fails
+    ctx.ev("antimeridian_set")
+    got = sorted(int(i) for i in np.atleast_1d(g.antimeridian_face_indices))
+    if got != am0:
+        fails.append(Failure("antimeridian_set", "Grid.antimeridian_face_indices", "wrong-set", f"after {[o[0] + ':' + o[2][0] for o in case['obs']]}: {got}, expected {am0}"))
+    return fails
+
+
 def run_case(case, ctx):
     import cartopy.crs as ccrs
     from shapely.geometry import Point, Polygon
     from shapely.ops import unary_union
 
     ux = build.ux()
+    if case.get("kind") == "am-set":
+        return _run_am_set(case, ctx)
     mesh = case["mesh"]
     nodes = np.asarray(mesh["nodes"], float)
     faces = mesh["faces"]
